@@ -198,18 +198,29 @@ class Run:
                 print('KNOWN-FINDING: property=%s %s [sig=%s; %d case(s) this run]' %
                       (self.prop, known[sig], sig, len(items)))
                 continue
-            path = os.path.join(REPLAY_DIR, '%s-%s-%s.json' % (self.prop, re.sub(r'[^A-Za-z0-9_.-]+', '_', sig)[:80],
-                                                               core.h(witness)[:8]))
-            with open(path, 'w', encoding='utf-8') as f:
-                json.dump({'property': self.prop, 'sig': sig, 'what': what, 'witness': witness,
-                           'cases_this_run': len(items)}, f, indent=1, sort_keys=True, default=core.enc)
-            if replay_confirm and not os.environ.get('VERIF_NO_CONFIRM'):
+            confirmed = None
+            # a failure may depend on what the same process did before (a cache at module scope, say): if the first
+            # witness does not reproduce on its own, try the later ones of the same signature before giving up
+            tried = 0
+            for what, witness in items[:1] + items[1:][-6:]:
+                path = os.path.join(REPLAY_DIR, '%s-%s-%s.json' % (self.prop, re.sub(r'[^A-Za-z0-9_.-]+', '_', sig)[:80],
+                                                                   core.h(witness)[:8]))
+                with open(path, 'w', encoding='utf-8') as f:
+                    json.dump({'property': self.prop, 'sig': sig, 'what': what, 'witness': witness,
+                               'cases_this_run': len(items)}, f, indent=1, sort_keys=True, default=core.enc)
+                if not replay_confirm or os.environ.get('VERIF_NO_CONFIRM'):
+                    confirmed = True
+                    break
+                tried += 1
                 ok = confirm_replay(self.prop, path)
-                if ok is False:
-                    print('HARNESS-ERROR: property=%s sig=%s did not reproduce from its artefact %s' %
-                          (self.prop, sig, path))
-                    self.harness_errors.append({'err': 'replay of %s did not reproduce' % path})
-                    continue
+                if ok is not False:
+                    confirmed = True
+                    break
+            if not confirmed:
+                print('HARNESS-ERROR: property=%s sig=%s did not reproduce from any of %d artefacts (last: %s)' %
+                      (self.prop, sig, tried, path))
+                self.harness_errors.append({'err': 'replay of %s did not reproduce' % path})
+                continue
             alarms += 1
             print('VIOLATION property=%s replay=%s' % (self.prop, path))
             print('  sig=%s :: %s (%d case(s))' % (sig, what, len(items)))
